@@ -224,9 +224,18 @@ fn main() {
                 println!("{idx} {:016x} steps={} {}", rec["fp"].as_u64().unwrap_or(0), rec["steps"], rec.get("violation").map(|v| v["class"].to_string()).unwrap_or_else(|| "ok".into()));
             }
         }
+        "show" => {
+            let mode = mode_of(args.get(2));
+            let idx: u64 = args.get(3).and_then(|s| s.parse().ok()).unwrap_or(0);
+            let env = make_env(mode);
+            let mut rng = Rng::derive(env.seed, env.tag, idx);
+            let w = work::generate(&mut rng, &env.pools, env.mode);
+            println!("{}", serde_json::to_string_pretty(&w).unwrap());
+        }
         "pools" => {
             let p = build_pools();
             println!("exprs={} holiday={} easter={} countries={} excluded={}", p.exprs.len(), p.holiday_exprs.len(), p.easter_exprs.len(), p.countries.len(), p.excluded.len());
+            println!("border pairs: {:?}", p.border_pairs);
             for (e, why) in &p.excluded {
                 println!("  excluded {e:?}: {why}");
             }
@@ -357,6 +366,7 @@ fn batch(mode: &'static str, tier: &str) -> i32 {
         "state_measure": "distinct interleaving signatures = hash of the (task, site) sequence of all scheduling points taken through the shim, mixed with the number of context switches",
         "leg": "A (shuttle, guard on)",
         "fresh_process_per_execution": true,
+        "shim_level": std::fs::read_to_string(simcore::verif_root().join("sim-shuttle/gen/MODE")).map(|s| if s.trim() == "full" { "full: every std::sync / std::thread / thread_local! use in opening-hours and opening-hours-syntax is substituted by the simulator's primitives (atomics, Mutex, RwLock, Condvar, Once, OnceLock, LazyLock are scheduling points)" } else { "hooks only: the substituted tree did not compile; only LazyLock/Once at the committed #[cfg(oh_verif)] hooks are scheduling points" }.to_string()).unwrap_or_else(|_| "unknown".into()),
         "worker_processes": nw,
     });
     let rep = Report {
